@@ -607,20 +607,31 @@ static std::string run_free_case(std::vector<std::string> const &w,int backend)
 		h->calls=0; h->off_loop=0; h->early=0; h->kind=kind;
 		return h;
 	};
-	struct prod { std::unique_ptr<io::stream_socket> s; int peer; std::unique_ptr<io::deadline_timer> t;
+	struct prod { std::unique_ptr<io::stream_socket> s; int fd; int peer; std::unique_ptr<io::deadline_timer> t;
 		std::atomic<int> rd_pending,wr_pending; };
 	std::vector<std::unique_ptr<prod> > ps;
 	for(int i=0;i<producers;i++) {
 		int fds[2];
 		if(::socketpair(AF_UNIX,SOCK_STREAM,0,fds)<0) return "bad-op socketpair";
 		std::unique_ptr<prod> p(new prod());
-		p->s.reset(new io::stream_socket(srv)); p->s->assign(fds[0]); p->peer=fds[1];
+		p->s.reset(new io::stream_socket(srv)); p->s->assign(fds[0]); p->fd=fds[0]; p->peer=fds[1];
 		p->t.reset(new io::deadline_timer(srv));
 		p->rd_pending=0; p->wr_pending=0;
 		ps.push_back(std::move(p));
 	}
-	std::atomic<bool> loop_ready(false);
-	std::thread loop([&]{ loop_id=std::this_thread::get_id(); loop_ready=true; try { srv.run(); } catch(...) {} });
+	std::atomic<bool> loop_ready(false),loop_done(false);
+	std::thread loop([&]{ loop_id=std::this_thread::get_id(); loop_ready=true; try { srv.run(); } catch(...) {} loop_done=true; });
+	// stop() must end run() promptly (its wake-up is part of what is exercised): bounded wait, then give up loudly
+	auto stop_and_join=[&]()->bool {
+		srv.stop();
+		for(int spin=0;spin<10000 && !loop_done;spin++) std::this_thread::sleep_for(std::chrono::milliseconds(1));
+		if(!loop_done) {
+			std::cout<<"hung-stop"<<std::endl;
+			_exit(3);
+		}
+		loop.join();
+		return true;
+	};
 	while(!loop_ready) std::this_thread::yield();
 	std::vector<std::thread> ths;
 	for(int i=0;i<producers;i++) {
@@ -637,21 +648,23 @@ static std::string run_free_case(std::vector<std::string> const &w,int backend)
 					fr_handler *h=mk('t');
 					int ms=int(r.below(3));   // 0..2 ms from now
 					booster::ptime dl=booster::ptime::now()+booster::ptime::milliseconds(ms);
-					p.t->expires_at(dl);
-					p.t->async_wait([h,dl,&loop_id](error_code const &e){
+					// io_service's own (thread-safe) timer interface: a deadline_timer object is not meant to be
+					// shared between a producer thread and the loop thread (its waiter writes event_id_)
+					int tid=srv.set_timer_event(dl,[h,dl,&loop_id](error_code const &e){
 						if(std::this_thread::get_id()!=loop_id) h->off_loop++;
 						if(!e && booster::ptime::now()<dl) h->early++;
 						h->calls++; });
-					if(r.below(2)) p.t->cancel();
+					if(r.below(2)) srv.cancel_timer_event(tid);
 					break; }
 				case 3: {
 					if(p.rd_pending.load()!=0) break;      // previous readable handler still armed
 					fr_handler *h=mk('i');
 					p.rd_pending=1;
 					prod *pp=&p;
-					p.s->on_readable([h,pp,&loop_id](error_code const &){
+					int rfd=p.fd;
+					p.s->on_readable([h,pp,rfd,&loop_id](error_code const &e){
 						if(std::this_thread::get_id()!=loop_id) h->off_loop++;
-						char buf[64]; while(::recv(pp->s->native(),buf,sizeof(buf),MSG_DONTWAIT)>0) ;
+						char buf[64]; if(!e) while(::recv(rfd,buf,sizeof(buf),MSG_DONTWAIT)>0) ;
 						h->calls++; pp->rd_pending=0; });
 					if(r.below(3)) { char c='x'; (void)::send(p.peer,&c,1,MSG_NOSIGNAL|MSG_DONTWAIT); }
 					break; }
@@ -676,15 +689,16 @@ static std::string run_free_case(std::vector<std::string> const &w,int backend)
 	}
 	for(size_t i=0;i<ths.size();i++) ths[i].join();
 	// quiescence: cancel/close everything, then drain with a chain of posts
-	for(size_t i=0;i<ps.size();i++) { ps[i]->t->cancel(); error_code e; ps[i]->s->close(e); }
+	for(size_t i=0;i<ps.size();i++) { error_code e; ps[i]->s->close(e); }
 	std::mutex dm; std::condition_variable dcv; int rounds_done=0;
 	for(int k=0;k<4;k++) {
 		srv.post([&]{ std::unique_lock<std::mutex> lk(dm); rounds_done++; dcv.notify_all(); });
 		std::unique_lock<std::mutex> lk(dm);
 		if(!dcv.wait_for(lk,std::chrono::seconds(20),[&]{return rounds_done==k+1;})) {
 			// the loop does not answer any more: a lost wake-up or a dead loop
-			srv.stop(); lk.unlock(); loop.join();
-			return "hung";
+			lk.unlock();
+			std::cout<<"hung"<<std::endl;
+			_exit(3);
 		}
 	}
 	// timers that were armed with a deadline in the (near) future and then re-armed are still pending: wait
@@ -695,8 +709,7 @@ static std::string run_free_case(std::vector<std::string> const &w,int backend)
 		if(all) break;
 		std::this_thread::sleep_for(std::chrono::milliseconds(1));
 	}
-	srv.stop();
-	loop.join();
+	stop_and_join();
 	for(size_t i=0;i<ps.size();i++) ::close(ps[i]->peer);
 	std::ostringstream out;
 	bool ok=true;
